@@ -59,9 +59,16 @@ def allowed(state, real_rows, max_sel=200000):
     rows = state["rows"]
     blocks = state.get("blocks") or []
     real = Counter(canon_row(r) for r in real_rows)
-    by_org = {}
-    for r in rows:
-        by_org.setdefault(r["org"], Counter())[canon_row(r["o"])] += 1
+    cache = state.get("_cache")
+    if cache is None:
+        by_org = {}
+        for r in rows:
+            by_org.setdefault(r["org"], Counter())[canon_row(r["o"])] += 1
+        exp_all = Counter()
+        for c in by_org.values():
+            exp_all.update(c)
+        cache = state["_cache"] = (by_org, exp_all)
+    by_org, exp_all = cache
     if state.get("counted"):
         keep = state.get("cntKeep", 1)
         if keep == 0:
@@ -77,7 +84,7 @@ def allowed(state, real_rows, max_sel=200000):
                 return (True, "")
         return (False, "count-value")
     if not blocks:
-        exp = Counter(canon_row(r["o"]) for r in rows)
+        exp = exp_all
         if exp == real:
             return (True, "")
         return (False, diff_kind(exp, real))
